@@ -83,8 +83,7 @@ def main(tier):
                 where = "verify_internal"
                 if len(samples) < 8:
                     samples.append({"set": s, "mode": mode, "verifier_accept_condition_on_z_norm": b})
-            top = st.dedup(st.sites_under(j, "%s>h256_xof" % where, "Shake256"))
-            chs = [x for x in top if len(x["items"]) == 2 and x["items"][0]["len"] == [64, 64] and x["items"][0]["src"].endswith(".mu")]
+            chs = st.hash_roles(j, "sk.tr" if side == "sign" else "pk.tr")["commit"]
             okc = len(chs) >= 1 and all(x["items"][1]["len"] == [w1len, w1len] and [d["len"] for d in absorb.reads(j, x["id"])] == [str(lam4)] for x in chs)
             ob(okc, "A4:commitment-hash-shape:%s:%s" % (side, mode), {"rule": "A4 both sides hash mu | w1Encode(.) (same length) and use lambda/4 bytes", "entry": j["root"], "set": s, "w1_len": w1len,
                                                                       "sites": [x["rendered"][:120] for x in chs[:2]]})
